@@ -91,6 +91,29 @@ CHECKS = {
             'ring bonds) and order-0 edges between real nodes; molecule and per-node membership must be unchanged, for '
             'from_string and for from_graph with shuffled node order; the twin with a bonded virtual node must raise SyntaxError.',
             '4/C11', ''),
+    'C08': ('property-based testing: round trip read -> write -> read (fragments) and resolve -> write -> resolve (complete strings) with isomorphism oracle',
+            'Generated atomistic and coarse fragment sets with arbitrary descriptor lists are read, written by '
+            'write_cgsmiles_fragments and read again (isomorphism on element/name, charge, aromaticity, bond order, '
+            'descriptor multiset per atom); generated complete strings are re-written with write_cgsmiles from the '
+            'resolver inputs and must resolve to the same molecule (and the model).',
+            '4/C08', ''),
+    'C15': ('property-based testing: ground-truth stereo model rendered in several fragmentations/orders, metamorphic agreement of all variants with the truth',
+            'Molecules are built around stereo double bonds with drawn cis/trans truth and chirality labels; slash '
+            'marks are derived by the OpenSMILES rule from the writing direction of the own renderer; four variants '
+            '(uncut, three partitions incl. cuts at the double bond, random base-graph order) must all annotate the '
+            'truth on the right atoms; stored references must be real paths.',
+            '4/C15', ''),
+    'C18': ('property-based testing: round trip through RDKit vs model, geometric predicate after embedding, weighted-average and translation-equivariance (metamorphic) oracles',
+            'RDKit-sane generated molecules (resolved, permuted node order, shared atoms, weights): conversion round '
+            'trip with and without conformer vs the model, an independent RDKit construction decides acceptability; '
+            'embedded coordinates must put bonded atoms at bonding distance; forward mapping must equal the weighted '
+            'average of exactly the member atoms and commute with translations.',
+            '4/C18', 'RDKit embedding is stochastic; failures to embed are inconclusive. '),
+    'C19': ('property-based testing: postcondition oracle on generated graphs and their relabelled copies (metamorphic relabelling)',
+            'Generated connected graphs and resolved molecules are laid out with drawn bond lengths and numpy seeds, '
+            'as is and relabelled; positions must cover exactly the nodes, be finite 2-vectors, keep bonded nodes '
+            'apart and have mean bond length equal to the requested one.',
+            '4/C19', ''),
     'C16': ('property-based testing: generated sampler configurations, invariant over the output and the reconstructed growth history (model of open descriptors)',
             'Sampler configurations are generated (fragments, descriptors, reactivity / conditional tables, terminal sets, '
             'seeds, targets); every returned molecule is checked for connectivity, canonical numbering, tree-of-copies '
